@@ -523,6 +523,12 @@ def floating_types_use_floating_operators(ctx):
                 fi, outs = run_il_exec(idx, cls, fields)
                 got = sorted({outcome_text(o).split("(")[0] for o in outs})
                 ctx.check(f"{cls} {m} on two {tname} operands is the floating operation", bool(got) and all(g.startswith("F") for g in got), f"F{m}...(...)", str(got), fn_where(idx, fi))
+        # != : the comparison is the floating one, the negation around it is the boolean INV (there is no float variant of INV)
+        tab = idx.enum_table("CompareOpType")
+        if "NE" in tab:
+            fi, outs = run_il_exec(idx, "CompareOp", lambda: {"op_type": EnumV("CompareOpType", "NE", tab["NE"]), "ops": [mk_pure("a", mk()), mk_pure("b", mk())], "value_type": mk()})
+            got = sorted({normalise(outcome_text(o)) for o in outs})
+            ctx.check(f"CompareOp NE on two {tname} operands", got == ["INV(FEQ(<a.il_read()>, <b.il_read()>))"], "INV(FEQ(a, b))", str(got), fn_where(idx, fi))
 
 
 @rule("R10.8", "C10", "temporaries and registers keep their sort: h_tmpN carries sign, width and boolness of the operation's value; register operands get their architectural width", min_instances=45)
